@@ -399,6 +399,26 @@ def check(ctx):
             if k not in shapes:
                 shapes[k] = (it, g)
             per_item.append((it, k))
+    # R12: the domain fits the field (the mask is what the accessor constructor computes from MaxItems - a ladder that
+    # stops early leaves labels that cannot be stored)
+    ctx.rule("R12", "the item's domain fits its field: every writable bit-field Enum item has no more labels than its mask can hold (mask as computed by the interpreted accessor constructor) - a label whose index exceeds the mask is written as index & mask and reads back as another label")
+    n12 = 0
+    for stem, m in sorted(T.modules.items()):
+        for it in m.items:
+            g = T.geometry(it)
+            if g["type"] != "Enum" or g["bitpos"] is None or g["read_write"] is None or not isinstance(g["items"], list):
+                continue
+            n12 += 1
+            mask = g["bitmask"]
+            fits = isinstance(mask, int) and len(g["items"]) <= mask + 1
+            if not fits:
+                ctx.ob("R12", f"{stem}::{it.tag}", False,
+                       f"{stem}: writable Enum item {it.tag} has {len(g['items'])} labels in a field of mask {mask} (bit {g['bitpos']}, MaxItems {g.get('maxitems')}): "
+                       f"writing label index {(mask or 0) + 1} stores index & {mask}, the item reads back another label", repo.method(it.ctor, "__init__").loc,
+                       sample={"rule": "R12", "module": stem, "item": it.tag, "labels": len(g["items"]), "mask": mask})
+    ctx.ob("R12", "writable-bit-field-enums::examined", n12 > 0, "no writable bit-field Enum item found")
+    ctx.count("R12:writable bit-field Enum items", n12)
+    ctx.floor("R12", "writable bit-field Enum items", n12, 800)
     ctx.count("distinct_shapes", len(shapes))
     ctx.count("items", len(per_item))
     ctx.floor("R1", "geometry shapes", len(shapes), 40)
